@@ -59,8 +59,8 @@ func constIDL(v *Value) string {
 		return strconv.FormatInt(v.I, 10)
 	case DOUBLE:
 		f := math.Float64frombits(v.F)
-		s := strconv.FormatFloat(f, 'g', -1, 64)
-		if !strings.ContainsAny(s, ".e") {
+		s := strconv.FormatFloat(f, 'f', -1, 64) // no exponent form: IDL parsers disagree on it
+		if !strings.Contains(s, ".") {
 			s += ".0"
 		}
 		return s
